@@ -166,8 +166,8 @@ def run(rep):
                 if cands is None:
                     rep.violation("E4d", key, "%s renders %s as %s(..)%s but its reader has no entry for \"%s\"" % (short, v, name, " DISTINCT" if distinct else "", name.lower()), "%s:%d" % (mb["file"], mb["line"]))
                 elif v not in cands and "?" not in cands:
-                    # read back as another operator: the relation differs structurally; whether its types / results differ is not decided here
                     observations.append({"translator": short, "operator": v, "rendered_as": name, "read_back_as": sorted(cands)})
+                    rep.violation("E4d", key + "@readback", "%s renders %s as %s(..) but reads \"%s\" back as %s: the relation read back computes another function (other column type)" % (short, v, name, name.lower(), sorted(cands)), "%s:%d" % (mb["file"], mb["line"]))
 
     rep.extra["read_back_as_another_operator"] = observations
 
